@@ -13,7 +13,7 @@ A == P("arg", "any")
 TH == P("this", "any")
 
 ZooNames == {"t", "tb", "fail", "h0", "h1", "h2", "h3", "h4", "m0", "m1", "m2", "m3", "va", "idf",
-             "fi", "fu", "fd", "fs", "fy", "fb", "fl", "fis", "msi", "h9", "c0", "c2", "mo"}
+             "fi", "fu", "fd", "fs", "fy", "fb", "fl", "fis", "msi", "h9", "c0", "c2", "mo", "rs", "mw"}
 Zoo(n) ==
   CASE n = "t"    -> H(<< P("arg", "int"), A >>, "id2")
     [] n = "tb"   -> H(<< P("arg", "int") >>, "odd1")
@@ -42,6 +42,8 @@ Zoo(n) ==
     [] n = "c0"   -> H(<< >>, "pack")
     [] n = "c2"   -> H(<< A, P("arg", "int") >>, "pack")
     [] n = "mo"   -> H(<< TH, P("arg", "int"), P("arg", "str") >>, "pack")
+    [] n = "rs"   -> H(<< P("arg", "int"), TH >>, "pack")                      \* the receiver is not the first parameter
+    [] n = "mw"   -> H(<< P("arg", "str"), P("this", "int"), A >>, "pack")
 
 \* Context::default() plus the zoo (a zoo name that coincides with a built-in replaces it)
 FullRegistry == [n \in BF!BuiltinNames \cup ZooNames |-> IF n \in ZooNames THEN Zoo(n) ELSE BF!DefaultRegistry[n]]
